@@ -159,11 +159,18 @@ func runOnce(c drv.Case) (lib.Result, bool) {
 	var outs []stepOut
 	startSets := map[string]bool{}
 	pausedOK, stored, notStored := false, false, false
+ops:
 	for _, o := range c.Ops {
 		switch o.Op {
 		case "WC":
 			before := s.Reported()
 			ob := s.WC(o)
+			if ob.Hung {
+				terms = append(terms, fmt.Sprintf("WcX %s %d %s %s %s", drv.StrTerm(o.Req), o.Path, lib.B(o.L22), lib.B(o.L3), lib.B(o.OFF)))
+				outs = append(outs, stepOut{"WC", ob})
+				tags["request-never-answered"] = true
+				break ops
+			}
 			terms = append(terms, fmt.Sprintf("Wc %s %d %s %s %s %s %s %s %s %s %s", drv.StrTerm(o.Req), o.Path, lib.B(o.L22), lib.B(o.L3), lib.B(o.OFF),
 				lib.B(ob.OK), ob.Rep.Term(), drv.WritersTerm(ob.Writers), lib.B(ob.DirNew), lib.B(ob.Closed), lib.B(ob.Msg)))
 			outs = append(outs, stepOut{"WC", ob})
@@ -202,6 +209,12 @@ func runOnce(c drv.Case) (lib.Result, bool) {
 			}
 		case "LABEL":
 			ob := s.Label(o)
+			if ob.Hung {
+				terms = append(terms, fmt.Sprintf("LbX %s", drv.StrTerm(o.Label)))
+				outs = append(outs, stepOut{"LABEL", ob})
+				tags["request-never-answered"] = true
+				break ops
+			}
 			terms = append(terms, fmt.Sprintf("Lb %s %s %s %s %s %s", drv.StrTerm(o.Label), lib.B(ob.OK), ob.Rep.Term(), drv.WritersTerm(ob.Writers), lib.B(ob.Closed), lib.B(ob.Msg)))
 			outs = append(outs, stepOut{"LABEL", ob})
 			if ob.OK {
